@@ -61,12 +61,47 @@ def supers_for(natoms, maxsites=130, maxcells=64):
     return out
 
 
+def surviving_ops(crys, M):
+    """point operations of the crystal that map the supercell lattice onto itself"""
+    N = np.array(M, dtype=float)
+    Ninv = np.linalg.inv(N)
+    out = []
+    for g in crys.G:
+        R = Ninv @ np.asarray(g.rot, dtype=float) @ N
+        if np.abs(R - np.round(R)).max() < 1e-9:
+            out.append(g)
+    return out
+
+
+def nomap_region(crys, chem, sitelist, jumpnetwork, M):
+    """predicate of the C29 finding `interstitial-nomap`: some endpoint of a representative jump cannot be reached from the
+    representative site of its class by a crystal operation that survives in the supercell (lattice translations always do)"""
+    ops = surviving_ops(crys, M)
+    rep = {}
+    for sites in sitelist:
+        for i in sites:
+            rep[i] = sites[0]
+    for jl in jumpnetwork:
+        (i0, j0), dx = jl[0]
+        for site in (i0, j0):
+            if not any(g.indexmap[chem][rep[site]] == site for g in ops):
+                return True
+    return False
+
+
 def njumps(jn):
     return sum(len(jl) for jl in jn)
 
 
+def vacancy_cost(crys, chem, jn):
+    """rough size of the vacancy-mediated calculator: (jumps per site)^2 * sites / |G| ~ number of symmetry-distinct
+    second-shell pair states; measured build times: 3 -> 1 s, 20 -> 2 s, 80 -> 60 s"""
+    ns = len(crys.basis[chem])
+    return njumps(jn) ** 2 / float(ns * len(crys.G))
+
+
 @st.composite
-def setups(draw, kinds=("interstitial", "vacancy"), nsupers=(1, 3), maxsites_quick=130):
+def setups(draw, kinds=("interstitial", "vacancy"), nsupers=(1, 3), maxsites_quick=130, exclude_nomap=False, maxcost=40):
     kind = draw(st.sampled_from(list(kinds)))
     names = CAT_VAC if kind == "vacancy" else CAT_INT
     rec = draw(cs.recipes(dim=3, names=names, p_catalogue=0.5, max_species=3, max_mobile=4, max_other=3))
@@ -82,7 +117,7 @@ def setups(draw, kinds=("interstitial", "vacancy"), nsupers=(1, 3), maxsites_qui
         kk = None
         for kt in range(k, 5):
             sl, jn, cut = nw.network(crys, chem, kt)
-            if jn and njumps(jn) <= 40 and nw.gf_ok(crys, chem, sl, jn):
+            if jn and vacancy_cost(crys, chem, jn) <= maxcost and nw.gf_ok(crys, chem, sl, jn):
                 kk = kt
                 break
         if kk is None:
@@ -98,6 +133,8 @@ def setups(draw, kinds=("interstitial", "vacancy"), nsupers=(1, 3), maxsites_qui
                     k = kt
                     break
     pool = supers_for(crys.N, maxsites=maxsites_quick)
+    if exclude_nomap and kind == "interstitial":
+        pool = [M for M in pool if not nomap_region(crys, chem, sl, jn, M)]  # n*I always survives
     n = draw(st.integers(nsupers[0], nsupers[1]))
     supers = [draw(st.sampled_from(pool)) for _ in range(n)]
     return {"recipe": rec, "chem": chem, "kind": kind, "k": k, "supers": supers}
